@@ -45,10 +45,15 @@ macro "genv_norm" : tactic =>
       Int.reduceAdd, Int.reduceMul, Int.reduceDiv, Nat.reducePow, Nat.reduceSub, Nat.reduceAdd, Nat.reduceMul, Int.reduceToNat,
       Int.toNat_natCast, Int.ofNat_eq_natCast, and_1, and_3, and_7, and_15, and_31, and_63, and_255,
       Int.reduceEq, Int.reduceNe, Int.reduceLE, Int.reduceLT, Int.reduceGT, Int.reduceGE,
-      Nat.reduceEqDiff, Nat.reduceLeDiff, Nat.reduceLTLE, Nat.reduceLT,
+      Nat.reduceEqDiff, Nat.reduceLeDiff, Nat.reduceLT,
       or_self, or_false, false_or, or_true, true_or, and_false, false_and, and_true, true_and, not_true_eq_false, not_false_eq_true,
       if_true, if_false, ne_eq,
       Option.bind_some, Option.bind_none, bind_none', bind_some', returns_true, returns_false, isOk_ite, returns_decide] at *)
+
+/-- `genv_norm` is wrapped in `try` (nothing to normalise is not an error): make sure it does elaborate and work -/
+example (x : Int) (h : (x % 4294967296).toNat &&& Int.toNat 31 = 0 % 4294967296) : (x % 4294967296).toNat % 32 = 0 := by
+  genv_norm
+  exact h
 
 /-- `genv_bits bits bi h8`: with `h8 : bits ≤ 8` and the goal mentioning `(bits : Int)`, one goal per value `0 … 8`, the natural
     number and its cast both replaced by numerals (so that shifts by the bit count evaluate) -/
